@@ -1,6 +1,7 @@
 //! vh — verification harness for kaist-cp/circ (runtime monitoring).
 //! Prints one JSON record per line on stdout; the driver (`/verif/vcheck`) aggregates them.
 
+mod ds;
 mod ebr;
 mod hist;
 mod json;
@@ -199,6 +200,26 @@ fn main() {
                 .set("monitor_evals", mon::evals_json())
                 .set("wall_s", t0.elapsed().as_secs_f64());
             println!("{}", j.to_string());
+        }
+        "ds" => {
+            let prop: &'static str = Box::leak(args.str("prop", "C02").into_boxed_str());
+            mon::install_panic_hook(prop);
+            install_hooks();
+            let mode = match args.str("mode", "S").as_str() {
+                "S" => sched::Mode::Serial,
+                "P" => sched::Mode::Parallel,
+                _ => sched::Mode::Off,
+            };
+            let cfg = ds::DsCfg {
+                which: args.str("which", "harris"),
+                mode,
+                seed: args.u64("seed", 1),
+                shard: args.u64("shard", 0),
+                execs: args.0.get("only").map(|o| o.parse::<u64>().unwrap() + 1).unwrap_or(args.u64("execs", 1_000_000_000)),
+                secs: args.f64("secs", 1e9),
+            };
+            let st = ds::run_batch(&cfg);
+            println!("{}", ds::summary(&cfg, &st, t0.elapsed().as_secs_f64()).to_string());
         }
         "ql" => {
             let which = args.str("which", "c17");
